@@ -52,6 +52,19 @@ func c14Scripted(tier string, seed int64, idx int, c c14Case, res *core.Result) 
 	ctx, cancel := context.WithCancel(context.Background())
 	defer cancel()
 	fp := newFloodPeer(ctx, l)
+	// every other cancellation round: the blocked send's transport write notices the end of its
+	// context a little late - after the stream's read loop has started to end the stream
+	var holdArmed atomic.Bool
+	var holdFrom atomic.Int64
+	l.A.SetCtxErrHold(func() {
+		if !holdArmed.CompareAndSwap(true, false) {
+			return
+		}
+		for k := 0; k < 2000 && h.Hits()["cs.readloop.exit"] <= holdFrom.Load(); k++ {
+			time.Sleep(time.Millisecond)
+		}
+		time.Sleep(10 * time.Millisecond)
+	})
 	cc := goat.NewClientConn(l.A, "c0", "srv")
 	probe := func() bool {
 		pdone := make(chan error, 1)
@@ -135,6 +148,11 @@ func c14Scripted(tier string, seed int64, idx int, c c14Case, res *core.Result) 
 			break
 		}
 		if mode == "cancel-while-send-blocked-with-unread" {
+			if round%8 < 4 {
+				holdFrom.Store(h.Hits()["cs.readloop.exit"])
+				holdArmed.Store(true)
+				res.Stat("blocked_send_released_after_read_loop_exit", 1)
+			}
 			if round%4 == 0 {
 				m.Cancel()
 			} else {
